@@ -38,6 +38,7 @@ structure Inv (s : State) : Prop where
   usedNodup : s.used.Nodup
   usedBound : ∀ k ∈ s.used, k ≤ s.npipes
   held : ∀ k ∈ s.heldDetached, k ∈ s.used ∧ k ∉ s.pipes.map (·.k)
+  att : ∀ k ∈ s.attaching, hookOf s k = ["attaching"] ∧ k ∈ s.used ∧ k ∉ s.pipes.map (·.k) ∧ k ∉ s.heldDetached
 
 theorem hookOf_append (s : State) (k k' : Nat) (ev : String) (h : s.hooklog = l) :
     ((l ++ [(k', ev)]).filter (fun e => e.1 == k)).map (·.2) =
@@ -70,7 +71,7 @@ theorem hookOf_fresh (s : State) (hb : ∀ e ∈ s.hooklog, e.1 ≤ s.npipes) (k
 
 /-- states that agree on the lifecycle fields -/
 theorem inv_of_fields (s s' : State) (h : Inv s) (h1 : s'.pipes = s.pipes) (h2 : s'.used = s.used) (h3 : s'.npipes = s.npipes)
-    (h4 : s'.hooklog = s.hooklog) (h5 : s'.heldDetached = s.heldDetached) : Inv s' := by
+    (h4 : s'.hooklog = s.hooklog) (h5 : s'.heldDetached = s.heldDetached) (h6 : s'.attaching = s.attaching) : Inv s' := by
   have hh : ∀ k, hookOf s' k = hookOf s k := by intro k; simp [hookOf, h4]
   constructor
   · rw [h4, h3]; exact h.bound
@@ -80,11 +81,12 @@ theorem inv_of_fields (s s' : State) (h : Inv s) (h1 : s'.pipes = s.pipes) (h2 :
   · rw [h2]; exact h.usedNodup
   · rw [h2, h3]; exact h.usedBound
   · rw [h5, h2, h1]; exact h.held
+  · rw [h6, h2, h1, h5]; intro k hk; rw [hh]; exact h.att k hk
 
 theorem setDialer_inv (s : State) (d : Nat) (f : DialerSt → DialerSt) (h : Inv s) : Inv (setDialer s d f) :=
-  inv_of_fields s _ h rfl rfl rfl rfl rfl
+  inv_of_fields s _ h rfl rfl rfl rfl rfl rfl
 theorem setListener_inv (s : State) (l : Nat) (f : ListenerSt → ListenerSt) (h : Inv s) : Inv (setListener s l f) :=
-  inv_of_fields s _ h rfl rfl rfl rfl rfl
+  inv_of_fields s _ h rfl rfl rfl rfl rfl rfl
 
 theorem pipeGone_inv (s : State) (d : Option Nat) (now : Nat) (h : Inv s) : Inv (pipeGone s d now) := by
   unfold pipeGone
@@ -102,9 +104,9 @@ theorem erase_append_self (l : List Nat) (k : Nat) (h : k ∉ l) : (l ++ [k]).er
 
 /-- a pipe that never reaches the protocol: only Attaching is logged, nothing stays reserved -/
 theorem addPipe_rejected_inv (s : State) (h : Inv s) (extra : State → State)
-    (hx : ∀ t, (extra t).pipes = t.pipes ∧ (extra t).used = t.used ∧ (extra t).npipes = t.npipes ∧ (extra t).hooklog = t.hooklog ∧ (extra t).heldDetached = t.heldDetached) :
+    (hx : ∀ t, (extra t).pipes = t.pipes ∧ (extra t).used = t.used ∧ (extra t).npipes = t.npipes ∧ (extra t).hooklog = t.hooklog ∧ (extra t).heldDetached = t.heldDetached ∧ (extra t).attaching = t.attaching) :
     Inv (extra { s with npipes := s.npipes + 1, used := s.used, hooklog := s.hooklog ++ [(s.npipes + 1, "attaching")] }) := by
-  obtain ⟨e1, e2, e3, e4, e5⟩ := hx { s with npipes := s.npipes + 1, used := s.used, hooklog := s.hooklog ++ [(s.npipes + 1, "attaching")] }
+  obtain ⟨e1, e2, e3, e4, e5, e6⟩ := hx { s with npipes := s.npipes + 1, used := s.used, hooklog := s.hooklog ++ [(s.npipes + 1, "attaching")] }
   let t : State := { s with npipes := s.npipes + 1, used := s.used, hooklog := s.hooklog ++ [(s.npipes + 1, "attaching")] }
   have ht : Inv t := by
     have hext : ∀ j, hookOf t j = hookOf s j ++ (([(s.npipes + 1, "attaching")] : List (Nat × String)).filter (fun e => e.1 == j)).map (·.2) :=
@@ -137,7 +139,10 @@ theorem addPipe_rejected_inv (s : State) (h : Inv s) (extra : State → State)
     · exact h.usedNodup
     · intro k hk; have := h.usedBound k hk; simp only [t]; omega
     · exact h.held
-  exact inv_of_fields t _ ht e1 e2 e3 e4 e5
+    · intro k hk
+      obtain ⟨a1, a2, a3, a4⟩ := h.att k hk
+      exact ⟨by rw [hne k (h.usedBound k a2)]; exact a1, a2, a3, a4⟩
+  exact inv_of_fields t _ ht e1 e2 e3 e4 e5 e6
 
 end Core
 end Model
@@ -152,7 +157,7 @@ theorem rejected_state_inv (s : State) (h : Inv s) :
     Inv { s with npipes := s.npipes + 1, used := (s.used ++ [s.npipes + 1]).erase (s.npipes + 1),
                  hooklog := s.hooklog ++ [(s.npipes + 1, "attaching")] } := by
   rw [erase_append_self _ _ (fresh_not_used s h)]
-  exact addPipe_rejected_inv s h id (fun _ => ⟨rfl, rfl, rfl, rfl, rfl⟩)
+  exact addPipe_rejected_inv s h id (fun _ => ⟨rfl, rfl, rfl, rfl, rfl, rfl⟩)
 
 /-- the state after a pipe has been attached -/
 def attachedState (s : State) (d : Option Nat) : State :=
@@ -218,6 +223,14 @@ theorem attachedState_inv (s : State) (d : Option Nat) (h : Inv s) : Inv (attach
     simp only [attachedState, List.map_append, List.map_cons, List.map_nil, List.mem_append, List.mem_singleton, not_or]
     refine ⟨h2, ?_⟩
     intro e; exact hfresh (e ▸ h1)
+  · intro j hj
+    obtain ⟨a1, a2, a3, a4⟩ := h.att j hj
+    have hne : j ≠ s.npipes + 1 := by intro e; exact hfresh (e ▸ a2)
+    have : ((s.npipes + 1 == j) = false) := by simpa using (Ne.symm hne)
+    refine ⟨?_, by simp only [attachedState]; exact List.mem_append_left _ a2, ?_, a4⟩
+    · rw [hext]; simp only [List.filter, this, List.map_nil, List.append_nil]; exact a1
+    · simp only [attachedState, List.map_append, List.map_cons, List.map_nil, List.mem_append, List.mem_singleton, not_or]
+      exact ⟨a3, hne⟩
 
 theorem addPipe_inv (s : State) (d : Option Nat) (mode : String) (h : Inv s) : Inv (addPipe s d mode).1 := by
   unfold addPipe
@@ -307,6 +320,18 @@ theorem closePipe_inv (s : State) (k : Nat) (h : Inv s) : Inv (closePipe s k).1 
           simp only [detachedLog, List.mem_map, List.mem_filter] at hm
           obtain ⟨q, ⟨_, hq2⟩, hqk⟩ := hm
           simp [hqk] at hq2
+      · intro j hj
+        obtain ⟨a1, a2, a3, a4⟩ := h.att j hj
+        have hne : j ≠ k := by intro e; exact a3 (e ▸ hkin)
+        have hkj : (k == j) = false := by simpa using (Ne.symm hne)
+        refine ⟨?_, a2, ?_, ?_⟩
+        · rw [hext _ rfl j]; simp only [hkj, Bool.false_eq_true, if_false, List.append_nil]; exact a1
+        · intro hm
+          simp only [detachedLog, List.mem_map, List.mem_filter] at hm
+          obtain ⟨q, ⟨hq, _⟩, rfl⟩ := hm
+          exact a3 (List.mem_map.mpr ⟨q, hq, rfl⟩)
+        · simp only [detachedLog, List.mem_append, List.mem_singleton, not_or]
+          exact ⟨a4, hne⟩
     · have c := common { detachedLog s k with used := s.used.erase k } rfl rfl rfl
       obtain ⟨c1, c2, c3, c4⟩ := c
       constructor
@@ -325,6 +350,16 @@ theorem closePipe_inv (s : State) (k : Nat) (h : Inv s) : Inv (closePipe s k).1 
         simp only [detachedLog, List.mem_map, List.mem_filter] at hm
         obtain ⟨q, ⟨hq, _⟩, rfl⟩ := hm
         exact h2 (List.mem_map.mpr ⟨q, hq, rfl⟩)
+      · intro j hj
+        obtain ⟨a1, a2, a3, a4⟩ := h.att j hj
+        have hne : j ≠ k := by intro e; exact a3 (e ▸ hkin)
+        have hkj : (k == j) = false := by simpa using (Ne.symm hne)
+        refine ⟨?_, (List.mem_erase_of_ne hne).mpr a2, ?_, a4⟩
+        · rw [hext _ rfl j]; simp only [hkj, Bool.false_eq_true, if_false, List.append_nil]; exact a1
+        · intro hm
+          simp only [detachedLog, List.mem_map, List.mem_filter] at hm
+          obtain ⟨q, ⟨hq, _⟩, rfl⟩ := hm
+          exact a3 (List.mem_map.mpr ⟨q, hq, rfl⟩)
 
 end Core
 end Model
@@ -358,6 +393,14 @@ theorem hookrelease_inv (s : State) (h : Inv s) :
   · exact List.Nodup.sublist List.filter_sublist h.usedNodup
   · intro k hk; exact h.usedBound k (List.mem_filter.mp hk).1
   · intro j hj; simp at hj
+  · intro j hj
+    obtain ⟨a1, a2, a3, a4⟩ := h.att j hj
+    refine ⟨a1, ?_, a3, by simp⟩
+    simp only [List.mem_filter, Bool.not_eq_true']
+    refine ⟨a2, ?_⟩
+    cases hc : s.heldDetached.contains j with
+    | false => rfl
+    | true => exact absurd (by simpa using hc) a4
 
 theorem redial_inv (s : State) (d : Nat) (h : Inv s) : Inv (redial s d).1 := by
   unfold redial
@@ -408,11 +451,107 @@ theorem timer_inv (s : State) (now : Nat) (h : Inv s) : ∀ st ∈ timerOutcomes
             · simp at hst; subst hst; exact h0
   exact key s.dialers [(s, [])] (by intro st hst; simp at hst; subst hst; exact h)
 
+theorem hookpark_inv (s : State) (h : Inv s) :
+    Inv { s with npipes := s.npipes + 1, used := s.used ++ [s.npipes + 1], hooklog := s.hooklog ++ [(s.npipes + 1, "attaching")],
+                 attaching := [s.npipes + 1], attachClosed := false } := by
+  have ht := addPipe_rejected_inv s h id (fun _ => ⟨rfl, rfl, rfl, rfl, rfl, rfl⟩)
+  simp only [id] at ht
+  have hfresh := fresh_not_used s h
+  constructor
+  · exact ht.bound
+  · exact ht.shape
+  · intro p hp; exact ⟨(ht.listed p hp).1, List.mem_append_left _ (ht.listed p hp).2⟩
+  · exact ht.distinct
+  · show (s.used ++ [s.npipes + 1]).Nodup
+    rw [List.nodup_append]
+    refine ⟨h.usedNodup, by simp, ?_⟩
+    intro a ha b hb; simp only [List.mem_singleton] at hb; subst hb; intro e; exact hfresh (e ▸ ha)
+  · intro j hj
+    simp only [List.mem_append, List.mem_singleton] at hj
+    rcases hj with hj | rfl
+    · have := h.usedBound j hj; show j ≤ s.npipes + 1; omega
+    · exact Nat.le_refl _
+  · intro j hj; obtain ⟨h1, h2⟩ := ht.held j hj; exact ⟨List.mem_append_left _ h1, h2⟩
+  · intro j hj
+    simp only [List.mem_singleton] at hj; subst hj
+    refine ⟨?_, by simp, ?_, ?_⟩
+    · have hk0 : hookOf s (s.npipes + 1) = [] := hookOf_fresh s h.bound _ (by omega)
+      simp only [hookOf] at hk0 ⊢
+      simp [List.filter_append, hk0, List.filter]
+    · intro hm; obtain ⟨p, hp, hpk⟩ := List.mem_map.mp hm; exact hfresh (hpk ▸ (h.listed p hp).2)
+    · intro hm; exact hfresh (h.held _ hm).1
+
+theorem attachrelease_closed_inv (s : State) (h : Inv s) (k : Nat) (hk : s.attaching = [k]) :
+    Inv { s with used := s.used.erase k, attaching := [], attachClosed := false } := by
+  obtain ⟨_, a2, a3, a4⟩ := h.att k (by simp [hk])
+  constructor
+  · exact h.bound
+  · exact h.shape
+  · intro p hp
+    have hne : p.k ≠ k := by intro e; exact a3 (List.mem_map.mpr ⟨p, hp, e⟩)
+    exact ⟨(h.listed p hp).1, (List.mem_erase_of_ne hne).mpr (h.listed p hp).2⟩
+  · exact h.distinct
+  · exact h.usedNodup.erase k
+  · intro j hj; exact h.usedBound j (List.mem_of_mem_erase hj)
+  · intro j hj
+    obtain ⟨h1, h2⟩ := h.held j hj
+    have hne : j ≠ k := by intro e; exact a4 (e ▸ hj)
+    exact ⟨(List.mem_erase_of_ne hne).mpr h1, h2⟩
+  · intro j hj; simp at hj
+
+theorem attachrelease_ok_inv (s : State) (h : Inv s) (k : Nat) (hk : s.attaching = [k]) :
+    Inv { s with pipes := s.pipes ++ [{ k := k, dialer := none, added := true, closed := false }],
+                 hooklog := s.hooklog ++ [(k, "attached")], attaching := [] } := by
+  obtain ⟨a1, a2, a3, a4⟩ := h.att k (by simp [hk])
+  have hext : ∀ (t : State), t.hooklog = s.hooklog ++ [(k, "attached")] → ∀ j, hookOf t j = hookOf s j ++ (if k == j then ["attached"] else []) := by
+    intro t ht j
+    rw [hookOf_ext s t _ ht j]
+    by_cases hj : (k == j) = true
+    · simp [List.filter, hj]
+    · simp [List.filter, hj]
+  constructor
+  · intro e he
+    simp only [List.mem_append, List.mem_singleton] at he
+    rcases he with he | rfl
+    · exact h.bound e he
+    · exact h.usedBound k a2
+  · intro j
+    rw [hext _ rfl j]
+    by_cases hj : k = j
+    · subst hj; simp [a1]
+    · have : (k == j) = false := by simpa using hj
+      simp only [this, Bool.false_eq_true, if_false, List.append_nil]
+      exact h.shape j
+  · intro p hp
+    simp only [List.mem_append, List.mem_singleton] at hp
+    rcases hp with hp | rfl
+    · have hne : p.k ≠ k := by intro e; exact a3 (List.mem_map.mpr ⟨p, hp, e⟩)
+      have : (k == p.k) = false := by simpa using (Ne.symm hne)
+      rw [hext _ rfl p.k]
+      simp only [this, Bool.false_eq_true, if_false, List.append_nil]
+      exact h.listed p hp
+    · rw [hext _ rfl k]; simp [a1, a2]
+  · simp only [List.map_append, List.map_cons, List.map_nil]
+    rw [List.nodup_append]
+    refine ⟨h.distinct, by simp, ?_⟩
+    intro a ha b hb
+    simp only [List.mem_singleton] at hb
+    subst hb
+    intro e; exact a3 (e ▸ ha)
+  · exact h.usedNodup
+  · exact h.usedBound
+  · intro j hj
+    obtain ⟨h1, h2⟩ := h.held j hj
+    refine ⟨h1, ?_⟩
+    simp only [List.map_append, List.map_cons, List.map_nil, List.mem_append, List.mem_singleton, not_or]
+    exact ⟨h2, fun e => a4 (e ▸ hj)⟩
+  · intro j hj; simp at hj
+
 theorem core_inv (s : State) (now : Nat) (op : List String) (h : Inv s) : ∀ r ∈ core s now op, Inv r.1 := by
   intro r hr
   unfold core at hr
   split at hr
-  · simp at hr; subst hr; exact inv_of_fields s _ h rfl rfl rfl rfl rfl
+  · simp at hr; subst hr; exact inv_of_fields s _ h rfl rfl rfl rfl rfl rfl
   · -- listen
     split at hr
     · simp at hr
@@ -429,11 +568,16 @@ theorem core_inv (s : State) (now : Nat) (op : List String) (h : Inv s) : ∀ r 
     · split at hr
       · simp at hr; subst hr; exact h
       · split at hr
-        · try simp only [] at hr
-          simp at hr; subst hr; exact closePipe_inv _ _ (addPipe_inv _ _ _ h)
-        · try simp only [] at hr
-          simp at hr; subst hr; exact addPipe_inv _ _ _ h
-  · simp at hr; subst hr; exact inv_of_fields s _ h rfl rfl rfl rfl rfl
+        · split at hr
+          · simp at hr
+          · try simp only [] at hr
+            simp at hr; subst hr; exact hookpark_inv s h
+        · split at hr
+          · try simp only [] at hr
+            simp at hr; subst hr; exact closePipe_inv _ _ (addPipe_inv _ _ _ h)
+          · try simp only [] at hr
+            simp at hr; subst hr; exact addPipe_inv _ _ _ h
+  · simp at hr; subst hr; exact inv_of_fields s _ h rfl rfl rfl rfl rfl rfl
   · -- dial
     split at hr
     · simp at hr
@@ -462,16 +606,27 @@ theorem core_inv (s : State) (now : Nat) (op : List String) (h : Inv s) : ∀ r 
         · simp at hr; subst hr; exact setDialer_inv _ _ _ h
         · try simp only [] at hr
           simp at hr; subst hr; exact setDialer_inv _ _ _ h
+  · -- attachrelease
+    split at hr
+    · rename_i k hk
+      split at hr
+      · simp at hr; subst hr; exact attachrelease_closed_inv s h k hk
+      · simp at hr; subst hr; exact attachrelease_ok_inv s h k hk
+    · simp at hr; subst hr; exact h
   · -- drop
     split at hr
-    · simp at hr; subst hr; exact h
-    · try simp only [] at hr
-      simp at hr; subst hr; exact pipeGone_inv _ _ _ (closePipe_inv _ _ h)
+    · simp at hr; subst hr; exact inv_of_fields s _ h rfl rfl rfl rfl rfl rfl
+    · split at hr
+      · simp at hr; subst hr; exact h
+      · try simp only [] at hr
+        simp at hr; subst hr; exact pipeGone_inv _ _ _ (closePipe_inv _ _ h)
   · -- pclose
     split at hr
-    · simp at hr; subst hr; exact h
-    · try simp only [] at hr
-      simp at hr; subst hr; exact pipeGone_inv _ _ _ (closePipe_inv _ _ h)
+    · simp at hr; subst hr; exact inv_of_fields s _ h rfl rfl rfl rfl rfl rfl
+    · split at hr
+      · simp at hr; subst hr; exact h
+      · try simp only [] at hr
+        simp at hr; subst hr; exact pipeGone_inv _ _ _ (closePipe_inv _ _ h)
   · split at hr
     · simp at hr
     · split at hr <;> (simp at hr; subst hr)
@@ -482,20 +637,20 @@ theorem core_inv (s : State) (now : Nat) (op : List String) (h : Inv s) : ∀ r 
     · split at hr <;> (simp at hr; subst hr)
       · exact h
       · exact setListener_inv _ _ _ h
-  · simp at hr; subst hr; exact inv_of_fields s _ h rfl rfl rfl rfl rfl
+  · simp at hr; subst hr; exact inv_of_fields s _ h rfl rfl rfl rfl rfl rfl
   · simp only [List.mem_singleton] at hr; subst hr; exact hookrelease_inv s h
   · simp at hr; subst hr; exact h
   · -- sockclose
     try simp only [] at hr
     simp at hr; subst hr
-    exact closeAll_inv _ _ (inv_of_fields s _ h rfl rfl rfl rfl rfl)
+    exact closeAll_inv _ _ (inv_of_fields s _ h rfl rfl rfl rfl rfl rfl)
   · simp at hr
 
 theorem step_inv (s : State) (op : List String) (h : Inv s) : ∀ o ∈ step s op, Inv o.1 := by
   intro o ho
   simp only [step, List.mem_flatMap, List.mem_map] at ho
   obtain ⟨st, hst, r, hr, r2, hr2, rfl⟩ := ho
-  exact inv_of_fields _ _ (timer_inv r.1 _ (core_inv st.1 _ _ (timer_inv s _ h st hst) r hr) r2 hr2) rfl rfl rfl rfl rfl
+  exact inv_of_fields _ _ (timer_inv r.1 _ (core_inv st.1 _ _ (timer_inv s _ h st hst) r hr) r2 hr2) rfl rfl rfl rfl rfl rfl
 
 inductive Reach : State → Prop
   | init : Reach init
